@@ -178,7 +178,7 @@ func (w *world) collect() {
 		case ev := <-w.startCh:
 			w.parked[ev.i] = &parked{ev.tb, ev.rel}
 			w.started--
-		case <-time.After(30 * time.Second):
+		case <-time.After(3 * time.Minute): // generous: only a real deadlock should trip this, never machine load
 			panic("harness: started handler did not park")
 		}
 	}
